@@ -29,18 +29,20 @@ RULE = ('random small lenses (2-6 optical interfaces at their paraxial focus, EP
         'value = nominal), extreme (tilt / radius so that rays fail), failpoint (NaN injected into Paraxial.f2 at chosen '
         'evaluations); non-trivial = (>= 2 perturbations or >= 5 rows) and an operand column that is not constant; '
         'distinct = distinct case hash')
-TIERS = {'quick': dict(shards=16, cases=2, budget_s=50), 'thorough': dict(shards=16, cases=28, budget_s=460)}
-MIN_NONTRIVIAL = {'quick': 12, 'thorough': 150}
+TIERS = {'quick': dict(shards=16, cases=2, budget_s=45), 'thorough': dict(shards=16, cases=150, budget_s=440)}
+MIN_NONTRIVIAL = {'quick': 15, 'thorough': 300}
 MIN_EVALS = {
-    'row-reproduced': {'quick': 100, 'thorough': 1500},
-    'row-consistent-with-recorded-compensation': {'quick': 20, 'thorough': 300},
-    'nominal-perturbation-reproduces-nominal': {'quick': 3, 'thorough': 40},
-    'seeded-run-reproducible': {'quick': 15, 'thorough': 200},
-    'lens-restored-after-run': {'quick': 25, 'thorough': 400},
-    'lens-restored-after-reset': {'quick': 25, 'thorough': 400},
-    'sampler-contract': {'quick': 100, 'thorough': 1500},
-    'table-layout': {'quick': 25, 'thorough': 400},
-    'fault-run-completes': {'quick': 2, 'thorough': 40},
+    'row-reproduced': {'quick': 150, 'thorough': 3000},
+    'row-consistent-with-recorded-compensation': {'quick': 20, 'thorough': 500},
+    'nominal-perturbation-reproduces-nominal': {'quick': 10, 'thorough': 150},
+    'seeded-run-reproducible': {'quick': 15, 'thorough': 400},
+    'lens-restored-after-run': {'quick': 25, 'thorough': 600},
+    'lens-restored-after-reset': {'quick': 25, 'thorough': 600},
+    'operands-restored-after-reset': {'quick': 25, 'thorough': 600},
+    'sampler-contract': {'quick': 100, 'thorough': 2500},
+    'table-layout': {'quick': 25, 'thorough': 600},
+    'fault-run-completes': {'quick': 4, 'thorough': 60},
+    'fault-row-records-nan': {'quick': 2, 'thorough': 30},
 }
 ASSUMPTIONS = [
     'the fresh lens is built from the JSON spec through the public add_surface API (vkit.lens.build), never by copying the live lens',
@@ -68,6 +70,7 @@ ANCHORS = [('optiland.tolerancing.core', 'Tolerancing.reset'), ('optiland.tolera
 M_NORESET = 'montecarlo-no-final-reset'
 M_INDEX = 'index-reset-loses-dispersion'
 M_SET = 'index-perturbation-drops-dispersion'
+M_PLANE = 'radius-reset-on-plane'
 EPS = float(np.finfo(float).eps)
 
 
@@ -161,7 +164,7 @@ def _spread(rng, spec, kind, kw, nom, a):
     return abs(nom) * 0.2 + 1e-5
 
 
-def _sampler(rng, family, nom, d, a, seed_base):
+def _sampler(rng, family, nom, d, a, seed_base, short=False):
     """JSON description of a sampler around the nominal value."""
     if d is None:        # plane: radius samples far from flat but finite
         lo, hi = sorted([float(a * L.loguniform(rng, 200, 2000)), float(a * L.loguniform(rng, 200, 2000))])
@@ -175,7 +178,7 @@ def _sampler(rng, family, nom, d, a, seed_base):
     if t == 'scalar':
         return dict(type='scalar', value=float(nomv + d * rng.uniform(-1, 1)))
     if t == 'range':
-        steps = int(rng.integers(2, 8 if family == 'SA' else 6))
+        steps = int(rng.integers(2, (8 if family == 'SA' else 6) if not short else 5))
         if rng.random() < 0.3:
             return dict(type='range', start=float(nomv), end=float(nomv + d * (1 if rng.random() < 0.5 else -1)), steps=steps)
         return dict(type='range', start=float(nomv - d), end=float(nomv + d), steps=steps)
@@ -254,8 +257,12 @@ def gen_case(rng, tier, i, mode=None, family=None, index_on_glass=None):
                               nwl=((2, 3) if index_on_glass else (1, 3)))
     classes = []
     if rng.random() < 0.35:
-        classes = L.decorate(spec, rng, a, tilt_p=0.35, decenter_p=0.35, freeform_p=(0.3 if rng.random() < 0.5 else 0.0),
-                             big_tilt_p=0.0)
+        classes = L.decorate(spec, rng, a, tilt_p=0.35, decenter_p=0.35,
+                             freeform_p=(0.3 if rng.random() < 0.5 and mode != 'extreme' else 0.0), big_tilt_p=0.0)
+        for s_ in spec['surfaces']:
+            if s_.get('type') == 'chebyshev':
+                # the Chebyshev geometry raises outside |x/norm| <= 1 (documented): keep every ray well inside
+                s_['norm'] = [float(round(100 * a, 3))] * 2
     K = len(spec['surfaces']) - 1
     with_comp = bool(rng.random() < (0.4 if mode in ('normal', 'extreme') else 0.25 if mode == 'nominal' else 0.3))
     cands = _candidates(spec, rng, with_comp)
@@ -291,7 +298,7 @@ def gen_case(rng, tier, i, mode=None, family=None, index_on_glass=None):
             smp = dict(type='range', start=nom, end=nom, steps=int(rng.integers(1, 4))) if family == 'SA' else \
                 dict(type='scalar', value=nom)
         else:
-            smp = _sampler(rng, family, nom, d, a, seed_base)
+            smp = _sampler(rng, family, nom, d, a, seed_base, short=with_comp)
         perts.append(dict(kind=kind, kw=kw, sampler=smp, nominal=nom))
     fault = None
     if mode == 'extreme':
@@ -337,13 +344,13 @@ def gen_case(rng, tier, i, mode=None, family=None, index_on_glass=None):
         ops = keep
     if mode == 'normal' and rng.random() < 0.2:
         for o in ops:
-            if rng.random() < 0.5:
-                o['target'] = float(rng.normal())      # explicit target (compensator then pulls towards it)
+            if o['type'] in ('rms_spot_size', 'OPD_difference') and rng.random() < 0.6:
+                o['target'] = 0.0                       # explicit target (the compensator then minimises the operand)
     if family == 'SA':
         rows = sum(p['sampler']['steps'] for p in perts)
         trials = rows
     else:
-        trials = int(rng.integers(1, 21))
+        trials = int(rng.integers(1, 21)) if not with_comp else int(rng.integers(1, 9 if tier == 'quick' else 13))
         rows = trials
     comps = []
     if with_comp:
@@ -404,12 +411,14 @@ def run_it(case, ana):
 
 
 def media_types(lens):
-    return [type(s.material_post).__name__ for s in lens.surface_group.surfaces]
+    """class names of the medium behind and of the geometry of every surface"""
+    return [type(s.material_post).__name__ for s in lens.surface_group.surfaces] + \
+        ['geometry:' + type(s.geometry).__name__ for s in lens.surface_group.surfaces]
 
 
 def snap_vec(lens, nom_types):
-    """Prescription as one vector (+ scale vector): numbers through the public getters, then one entry per surface that is
-    1 when the class of the medium behind it is the nominal class."""
+    """Prescription as one vector (+ scale vector): numbers through the public getters, then per surface one entry that is
+    1 when the class of the medium behind it is the nominal class and one that is 1 when the geometry class is the nominal one."""
     v, sc = [], []
     for d in snapshot(lens):
         nums = [d['z'], d['x'], d['y'], d['rx'], d['ry'], d['radius'], 0.0 if d['conic'] is None else d['conic']]
@@ -459,11 +468,16 @@ class Fresh:
             self.comp.operands = self.ops
         # as-built model of mechanism `index-reset-loses-dispersion`: the index perturbations listed in reset_idx have been
         # reset once -> constant-index medium carrying the nominal index at the variable's wavelength
+        # ... and of `radius-reset-on-plane`: a radius perturbation of a plane has been reset once -> set_radius(inf) has
+        # replaced the Plane by a StandardGeometry with radius = inf
         for j in reset_idx:
             p = case['perts'][j]
             k = p['kw']['surface_number']
-            n0 = float(np.ravel(self.lens.surface_group.surfaces[k].material_post.n(p['kw']['wavelength']))[0])
-            self.lens.set_index(n0, k)
+            if p['kind'] == 'index':
+                n0 = float(np.ravel(self.lens.surface_group.surfaces[k].material_post.n(p['kw']['wavelength']))[0])
+                self.lens.set_index(n0, k)
+            elif p['kind'] == 'radius':
+                self.lens.set_radius(float('inf'), k)
 
     def perturb(self, idx_values):
         from optiland.optimization.variable import Variable
@@ -472,8 +486,14 @@ class Fresh:
             Variable(self.lens, p['kind'], apply_scaling=False, **_kw(p['kw'])).update(v)
         return self
 
-    def compensate(self):
+    def compensate(self, nudge=0.0):
+        """run the compensation; nudge != 0 moves the optimiser's start by that relative amount (a few ulp): used only to
+        find out whether the optimisation amplifies last-bit noise beyond the tolerance (conditioning probe)"""
         if self.comp is not None:
+            if nudge:
+                for v in self.comp.variables:
+                    x = float(v.value)
+                    v.update(x + nudge * max(1.0, abs(x)))
             self.comp.run()
         return self
 
@@ -610,8 +630,14 @@ def check_case(case, rec):
     sampler_contract(case, rec)
 
     # ---- nominal lens, nominal values -----------------------------------------------------------------
-    nominal = Fresh(case)
-    nom_vals = nominal.values()
+    try:
+        nominal = Fresh(case)
+        nom_vals = nominal.values()
+    except ValueError as e:
+        if 'Chebyshev input coordinates' in str(e):       # documented precondition of that geometry, not a tolerancing matter
+            rec.cls('chebyshev-out-of-norm-skipped')
+            return
+        raise
     nom_types = media_types(nominal.lens)
     nom_vec, nom_sc = snap_vec(nominal.lens, nom_types)
     pnames = pert_names(case, nominal.lens)
@@ -619,8 +645,27 @@ def check_case(case, rec):
     onames = op_names(case)
     dispersive_index = [j for j, p in enumerate(case['perts']) if p['kind'] == 'index' and
                         nom_types[p['kw']['surface_number']] != 'IdealMaterial']
+    plane_radius = [j for j, p in enumerate(case['perts']) if p['kind'] == 'radius' and
+                    nom_types[len(nom_types) // 2 + p['kw']['surface_number']] == 'geometry:Plane']
     if dispersive_index:
         rec.cls('index-perturbation-on-dispersive-medium')
+    if plane_radius:
+        rec.cls('radius-perturbation-on-plane')
+
+    def reset_models(applied, fn):
+        """as-built models for the perturbations that are only ever *reset* in a row / at the end (not in `applied`):
+        every non-empty subset of the mechanisms that can act, fewest first; fn(reset_idx) -> predicted vector."""
+        cands = {}
+        if [j for j in dispersive_index if j not in applied]:
+            cands[M_INDEX] = [j for j in dispersive_index if j not in applied]
+        if [j for j in plane_radius if j not in applied]:
+            cands[M_PLANE] = [j for j in plane_radius if j not in applied]
+        out = []
+        for k in range(1, len(cands) + 1):
+            for fl in itertools.combinations(sorted(cands), k):
+                idx = sorted(j for f in fl for j in cands[f])
+                out.append((fl, (lambda idx=idx: fn(idx))))
+        return out
 
     # ---- the library run ----------------------------------------------------------------------------
     lens = L.build(spec)
@@ -717,8 +762,7 @@ def check_case(case, rec):
         rp = row_perts(r)
         got = op_tab[r]
         inj_here = (r + 1) in injected and not nC
-        # index perturbations on dispersive media that are NOT applied in this row have only been reset (SA)
-        only_reset = [j for j in dispersive_index if j not in [q for q, _ in rp]]
+        applied_r = [q for q, _ in rp]       # perturbations not applied in this row have only been reset (SA)
 
         def inject(v, mask):
             v = np.array(v, dtype=float)
@@ -726,22 +770,59 @@ def check_case(case, rec):
             return v
         if not (mode == 'failpoint' and nC):
             mask = np.isin(np.arange(nO), f2col) if inj_here else np.zeros(nO, dtype=bool)
-            want = inject(Fresh(case).perturb(rp).compensate().values(), mask)
-            models = [((M_INDEX,), lambda: inject(Fresh(case, reset_idx=only_reset).perturb(rp).compensate().values(), mask))] \
-                if only_reset else []
-            close_mech(rec, 'row-reproduced', got, want, tol_row, op_scale(case, want, got, tol_row), models,
-                       msg=f'{family} row {r}: recorded operands {got.tolist()} but a fresh nominal lens with the recorded '
-                           f'perturbation values {rp} ({[pnames[j] for j, _ in rp]})' + (' + compensation' if nC else '')
-                           + f' gives {want.tolist()}')
-            n_rep += 1
+            def replay(idx=(), nudge=0.0, mask=mask, rp=rp):
+                return inject(Fresh(case, reset_idx=idx).perturb(rp).compensate(nudge).values(), mask)
+            want = replay()
+            models = reset_models(applied_r, replay)
+            if nC:
+                # Is the comparison decidable?  The library's lens at the start of a trial differs from the fresh one in the
+                # last bit (vertex positions after set_thickness round trips, scaled compensator value); when the optimiser
+                # amplifies a few-ulp change of its start beyond a tenth of the tolerance, "the same compensation" is not a
+                # function of the recorded values at that tolerance and the row is decided by the recorded-compensation
+                # clause only.  Probed only when the row does not reproduce.
+                sc_ = op_scale(case, want, got, tol_row)
+                r_, same_ = rec.resid(got, want, sc_)
+                if not (same_ and r_ <= tol_row):
+                    bases = [((), want)] + [(fl, alt()) for fl, alt in models]
+                    explained = any(rec.resid(got, b, sc_)[1] and rec.resid(got, b, sc_)[0] <= tol_row for _, b in bases[1:])
+                    if not explained:
+                        ill = False
+                        for fl, base in bases:
+                            idx = sorted(j for f_ in fl for j in ({M_INDEX: dispersive_index, M_PLANE: plane_radius}[f_])
+                                         if j not in applied_r)
+                            for nudge in (2e-15, -2e-15, 1.6e-14):
+                                rn, sn = rec.resid(replay(idx, nudge), base, sc_)
+                                if not sn or rn > 0.1 * tol_row:
+                                    ill = True
+                                    break
+                            if ill:
+                                break
+                        if ill:
+                            rec.cls('compensated-row-ill-conditioned-undecided')
+                            rec.event('rows_ill_conditioned')
+                            continue_row = True
+                        else:
+                            continue_row = False
+                    else:
+                        continue_row = False
+                else:
+                    continue_row = False
+            else:
+                continue_row = False
+            if not continue_row:
+                close_mech(rec, 'row-reproduced', got, want, tol_row, op_scale(case, want, got, tol_row), models,
+                           msg=f'{family} row {r}: recorded operands {got.tolist()} but a fresh nominal lens with the recorded '
+                               f'perturbation values {rp} ({[pnames[j] for j, _ in rp]})' + (' + compensation' if nC else '')
+                               + f' gives {want.tolist()}')
+                n_rep += 1
         if nC:
             # the recorded compensator state explains the recorded operands (no optimiser in the loop).  With NaN injection
             # the injected NaN may sit in the f2 column of any row (the number of evaluations inside the optimiser is not
             # part of the statement): a NaN there is accepted, their count is bounded by the injections that fired.
             mask = (np.isnan(got) & np.isin(np.arange(nO), f2col)) if mode == 'failpoint' else np.zeros(nO, dtype=bool)
             want2 = inject(Fresh(case).perturb(rp).set_compensators(comp_tab[r]).values(), mask)
-            models = [((M_INDEX,), lambda: inject(Fresh(case, reset_idx=only_reset).perturb(rp).set_compensators(comp_tab[r]).values(),
-                                                  mask))] if only_reset else []
+            models = reset_models(applied_r, lambda idx, mask=mask: inject(
+                Fresh(case, reset_idx=idx).perturb(rp).set_compensators(comp_tab[r]).values(), mask))
             close_mech(rec, 'row-consistent-with-recorded-compensation', got, want2, 1e-9,
                        op_scale(case, want2, got, 1e-9), models,
                        msg=f'{family} row {r}: recorded operands {got.tolist()} but the recorded perturbation {rp} + recorded '
@@ -792,7 +873,7 @@ def check_case(case, rec):
 
     # ---- lens restored ---------------------------------------------------------------------------------------
     def model_vec(flags):
-        f = Fresh(case, reset_idx=(dispersive_index if M_INDEX in flags else ()))
+        f = Fresh(case, reset_idx=([j for j in dispersive_index if M_INDEX in flags] + [j for j in plane_radius if M_PLANE in flags]))
         if M_NORESET in flags and n_rows:
             f.perturb(row_perts(n_rows - 1))
             if nC:
@@ -806,7 +887,8 @@ def check_case(case, rec):
                 out.append((fl, (lambda fl=fl: model_vec(fl))))
         return out
 
-    cand_run = ([M_NORESET] if family == 'MC' else []) + ([M_INDEX] if idx_flag else [])
+    cand_reset = ([M_INDEX] if dispersive_index else []) + ([M_PLANE] if plane_radius else [])
+    cand_run = ([M_NORESET] if family == 'MC' else []) + cand_reset
     sc = _vec_scale(after_run_vec, nom_vec, nom_sc)
     r0, same0 = rec.resid(after_run_vec, nom_vec, sc)
     close_mech(rec, 'lens-restored-after-run', after_run_vec, nom_vec, 1e-12, sc,
@@ -817,14 +899,14 @@ def check_case(case, rec):
     sc = _vec_scale(after_reset_vec, nom_vec, nom_sc)
     r0, same0 = rec.resid(after_reset_vec, nom_vec, sc)
     close_mech(rec, 'lens-restored-after-reset', after_reset_vec, nom_vec, 1e-12, sc,
-               restore_models([M_INDEX] if idx_flag else []) if not (same0 and r0 <= 1e-12) else [],
+               restore_models(cand_reset) if not (same0 and r0 <= 1e-12) else [],
                msg=f'after {family}.run() and Tolerancing.reset() the prescription differs from the nominal one: '
                    + _diff_text(after_reset_vec, nom_vec, sc))
     # operands of the restored lens (what a user sees after the run)
-    if not idx_flag:
-        after_vals = np.array([float(np.ravel(np.asarray(v, dtype=float))[0]) for v in tol.evaluate()])
-        rec.close('operands-restored-after-reset', after_vals, nom_vals, 1e-10, scale=op_scale(case, nom_vals, after_vals, 1e-10),
-                  msg='operands evaluated on the live lens after reset() differ from the nominal operands')
+    after_vals = np.array([float(np.ravel(np.asarray(v, dtype=float))[0]) for v in tol.evaluate()])
+    close_mech(rec, 'operands-restored-after-reset', after_vals, nom_vals, 1e-10, op_scale(case, nom_vals, after_vals, 1e-10),
+               reset_models([], lambda idx: Fresh(case, reset_idx=idx).values()),
+               msg=f'operands evaluated on the live lens after reset() are {after_vals.tolist()}, on the nominal lens {nom_vals.tolist()}')
 
     # ---- seeded run reproducible ----------------------------------------------------------------------------
     seeded = all(p['sampler']['type'] in ('scalar', 'range') or p['sampler'].get('seed') is not None for p in case['perts'])
